@@ -13,7 +13,7 @@ ASSUMPTIONS = ["--retries/NEXTEST_RETRIES (executor `force_retries`) is modelled
 
 
 def run(seed, tier, replay=None):
-    n = 500 if tier == "quick" else 12000
+    n = 500 if tier == "quick" else 40000
     r = common.run_streams([("p_settings", [seed, n, vlib.BUILD + "/settings-tmp"])])
     items = [([b, args, idx], req, impl) for (b, args, idx, req, impl) in r.cases]
     mism, _ = common.compare(items, None)
